@@ -52,4 +52,8 @@ def write(mod, total, args, wall, reported, known_lines, inconclusive):
         pass
     except ImportError:
         pass
+    except Exception as ex:  # noqa  (jsonschema.ValidationError)
+        # e.g. a run that was cut short by a flood of violations has fewer non-trivial cases than the schema asks for:
+        # the verdict lines must still be printed; the file is then no evidence for anything
+        print(f"NOTE: evidence/{mod.ID}.json does not validate against the schema on this run: {str(ex).splitlines()[0][:160]}")
     return path
